@@ -6,7 +6,7 @@
    nesting level d, started with message c in the record (the message register is threaded because
    a throw with the empty format keeps the previous message); objects are identities, kind_of o is
    the eq-class exception_catch matches by. *)
-From CelloV Require Import Generated Exn ExnProofs.
+From CelloV Require Import Generated Exn ExnProofs ExnTie.
 From Coq Require Import List.
 Import ListNotations.
 
@@ -248,17 +248,39 @@ Proof. exact (ExnProofs.strings_equal_dec
      (exn_macro_catch_in, expected_macro_catch_in); (exn_macro_throw, expected_macro_throw)]). Qed.
 Print Assumptions exn_macro_shapes.
 
+(* The five state-changing C functions (exception_try, exception_try_end, exception_try_fail,
+   exception_throw, exception_catch; Exception_Len and Exception_Buffer inlined) are TRANSLATED by
+   tools/exn_symex.py into state transformers over the C view of the record (Generated.ExnTr); each
+   simulates the machine's function through abs (stack = buffers[depth-1] .. buffers[0]).  Statement
+   order, temporaries and index arithmetic of the C text are free; its effect is not. *)
+Theorem exn_tie_try : forall env s,
+  sim (ExnTr.tr_exception_try env s) (m_try exc_max_depth try_keeps_obj env (abs s)).
+Proof. exact ExnTie.tie_try. Qed.
+Print Assumptions exn_tie_try.
+
+Theorem exn_tie_try_end : forall s, sim (ExnTr.tr_exception_try_end s) (m_try_end (abs s)).
+Proof. exact ExnTie.tie_try_end. Qed.
+Print Assumptions exn_tie_try_end.
+
+Theorem exn_tie_try_fail : forall s, sim (ExnTr.tr_exception_try_fail s) (m_try_fail (abs s)).
+Proof. exact ExnTie.tie_try_fail. Qed.
+Print Assumptions exn_tie_try_fail.
+
+Theorem exn_tie_catch : forall fs s,
+  sim (ExnTr.tr_exception_catch (fun f o => Nat.eqb (kind_of f) (kind_of o)) fs s)
+      (m_catch clear_active_on_catch fs (abs s)).
+Proof. exact ExnTie.tie_catch. Qed.
+Print Assumptions exn_tie_catch.
+
+Theorem exn_tie_throw : forall o m s,
+  sim (ExnTr.tr_exception_throw (set_msg m) o s) (m_throw throw_records_obj_after_format o m (abs s)).
+Proof. exact ExnTie.tie_throw. Qed.
+Print Assumptions exn_tie_throw.
+
+(* the two functions that only print (diagnostic + exit(EXIT_FAILURE); the signal table) stay tied by text *)
 Theorem exn_source_shapes :
   Forall (fun p => fst p = snd p)
-    [(exn_src_try, expected_src_try); (exn_src_try_end, expected_src_try_end);
-     (exn_src_try_fail, expected_src_try_fail); (exn_src_throw, expected_src_throw);
-     (exn_src_catch, expected_src_catch); (exn_src_buffer, expected_src_buffer);
-     (exn_src_len, expected_src_len); (exn_src_error, expected_src_error);
-     (exn_src_signal, expected_src_signal)].
+    [(exn_src_error, expected_src_error); (exn_src_signal, expected_src_signal)].
 Proof. exact (ExnProofs.strings_equal_dec
-    [(exn_src_try, expected_src_try); (exn_src_try_end, expected_src_try_end);
-     (exn_src_try_fail, expected_src_try_fail); (exn_src_throw, expected_src_throw);
-     (exn_src_catch, expected_src_catch); (exn_src_buffer, expected_src_buffer);
-     (exn_src_len, expected_src_len); (exn_src_error, expected_src_error);
-     (exn_src_signal, expected_src_signal)]). Qed.
+    [(exn_src_error, expected_src_error); (exn_src_signal, expected_src_signal)]). Qed.
 Print Assumptions exn_source_shapes.
